@@ -7,7 +7,9 @@ crypto is built from self.nwkskey; the None result returns NoUpdate without effe
 effect is dominated by the MIC-true edge (shared with C07) and the fcnt_down store lies on every accept
 path; the size test compares the frame length with max_payload_len (the window's RfConfig) + MHDR + MIC;
 WHO-WRITES fcnt_down. The arithmetic post-condition of next_fcnt_down is decided by the absint engine
-(clause d). Does not decide MIC arithmetic nor completeness of next_fcnt_down."""
+(clause d): with last = 65536 H + L and the wire counter W symbolic, the reconstruction is analysed under each case of the
+specification's window rule (fresh in the same / next 16-bit epoch, replay, too far ahead, top-epoch wrap, first downlink)
+and must return exactly Some(the reconstructed counter) resp. None. Does not decide MIC arithmetic."""
 from ..runner import Result, CheckError
 from .. import rules, flow
 from ..rules import param_by_name, one_call, term_of_operand, term_of_local, term_str, callee_name
@@ -203,13 +205,84 @@ def run(tier):
                 v = term_of_operand(nbf, s.rv.ops[fl.index('fcnt_down')])
                 res.require(v == ('agg', 'core::option::Option::None', ()), 'C05:Session::new:fcnt_down', 'new session does not start with fcnt_down = None',
                             None, 'CONST(fcnt_down=None)', instance='Session::new: fcnt_down = None')
-    # (d) arithmetic post-condition of next_fcnt_down
-    try:
-        from .. import absint_rules
-        absint_rules.c05_next_fcnt_down(c, res)
-    except ImportError:
-        res.assumptions.append('clause (d) (post-condition of next_fcnt_down) not yet decided: absint engine missing')
+    # (d) the counter reconstruction: sound (only fresh counters) AND complete (every fresh counter) - case analysis
+    next_fcnt_down_cases(c, res)
     res.coverage['configs'] = [c.info]
     res.explanation = __doc__
     res.assumptions += ['rustc MIR construction; SAME-VALUE compares single-assignment definition chains (copies/moves/reborrows)']
     return res
+
+
+def next_fcnt_down_cases(c, res):
+    """LoRaWAN 1.0.x counter window: a frame with 16-bit wire counter W is fresh after `last` iff the unique N with
+    N = W (mod 2^16), last < N <= last + MAX_FCNT_GAP exists (and fits 32 bits); the first downlink is taken at face value"""
+    from .. import absint_interp, tables
+    from ..absint import Lin
+    prog = c.prog
+    bl = prog.by_short.get('lorawan_device::mac::session::next_fcnt_down') or []
+    if len(bl) != 1:
+        raise CheckError('anchor: next_fcnt_down')
+    b = bl[0]
+    gb = prog.by_short.get('lorawan_device::region::constants::MAX_FCNT_GAP') or []
+    G = None
+    if len(gb) == 1:
+        a_, f_, o_, r_ = tables.run_fn(prog, gb[0])
+        G = tables._single(o_, r_) if o_ is not None else None
+    res.require(G == 16384, 'C05:MAX_FCNT_GAP', 'MAX_FCNT_GAP = %s (specification: 16384)' % G, 'MAX_FCNT_GAP', 'CONST(spec)', instance='MAX_FCNT_GAP = 16384')
+    G = G or 16384
+    one = Lin.const(1)
+    E = 65536
+    H, L, W = Lin.sym('H'), Lin.sym('L'), Lin.sym('W')
+    gap_same = W - L
+    gap_next = Lin.const(E) + W - L
+    cases = [
+        ('fresh, same epoch (1 <= W - L <= gap)', [one - gap_same, gap_same - Lin.const(G)], ('some', H.scale(E) + W)),
+        ('fresh, next epoch (W < L, 1 <= 65536 + W - L <= gap, epoch < 65535)', [W - L + one, one - gap_next, gap_next - Lin.const(G), H - Lin.const(65534)], ('some', H.scale(E) + W + Lin.const(E))),
+        ('replay of the last counter (W = L)', [W - L, L - W], ('none', None)),
+        ('too far ahead in the same epoch (W - L > gap)', [Lin.const(G + 1) - gap_same], ('none', None)),
+        ('older counter / too far ahead in the next epoch (W < L, 65536 + W - L > gap)', [W - L + one, Lin.const(G + 1) - gap_next, H - Lin.const(65534)], ('none', None)),
+        ('32-bit counter exhausted (W < L in epoch 65535)', [W - L + one, Lin.const(65535) - H, H - Lin.const(65535)], ('none', None)),
+    ]
+    for name, cons, (kind, expv) in cases:
+        an = absint_interp.new_analyzer(prog, max_depth=5)
+
+        def setup(an_, fr, st, cons=cons):
+            for s_ in ('H', 'L', 'W'):
+                st.lo[s_] = 0
+                st.hi[s_] = 65535
+            st.env[(fr.id, 1)] = ('adt', 'core::option::Option', frozenset([1]), {(1, '0'): ('int', H.scale(E) + L)}, None, ('u32',))
+            st.env[(fr.id, 2)] = ('int', W)
+            for con in cons:
+                st.add_con(con)
+        fr, out = an.analyze_entry(b, setup=setup)
+        outs = []
+        for u, v, st in an.entry_ret_edges:
+            rv = st.env.get((fr.id, 0))
+            if rv is None or rv[0] != 'adt' or rv[2] is None:
+                outs.append(('unknown', None, st))
+                continue
+            for var in sorted(rv[2]):
+                outs.append(('some' if var == 1 else 'none', an.field_of(rv, 1, '0', st, fr) if var == 1 else None, st))
+        ok = bool(outs) and all(k_ == kind for k_, v_, st_ in outs)
+        if ok and kind == 'some':
+            for k_, v_, st_ in outs:
+                lin = an.as_int(v_, st_) if v_ is not None else None
+                ok = ok and lin is not None and st_.prove_cmp('Eq', lin, expv)
+        bad = [o for o in an.obl.values() if o.bad]
+        res.require(ok and not bad, 'C05:next_fcnt_down:case:%s' % name.split(' (')[0].replace(' ', '-').replace(',', ''),
+                    'counter reconstruction, case "%s": expected %s, the analysis finds %s%s' % (name, kind if kind == 'none' else 'Some(%r)' % (expv,), sorted({k_ for k_, v_, s_ in outs}),
+                                                                                              '; possible panic: %s' % [(o.kind, o.desc) for o in bad] if bad else ''),
+                    b.path, 'CASE-ANALYSIS(counter window, symbolic H, L, W)', instance='next_fcnt_down, %s: %s' % (name, 'None' if kind == 'none' else 'Some(reconstructed counter)'))
+    # first downlink
+    an = absint_interp.new_analyzer(prog, max_depth=5)
+
+    def setup0(an_, fr, st):
+        st.lo['W'] = 0
+        st.hi['W'] = 65535
+        st.env[(fr.id, 1)] = ('adt', 'core::option::Option', frozenset([0]), {}, None, ('u32',))
+        st.env[(fr.id, 2)] = ('int', W)
+    fr, out = an.analyze_entry(b, setup=setup0)
+    rv = out.env.get((fr.id, 0)) if out is not None else None
+    okf = rv is not None and rv[0] == 'adt' and rv[2] == frozenset([1]) and an.as_int(an.field_of(rv, 1, '0', out, fr), out) == W
+    res.require(okf, 'C05:next_fcnt_down:case:first-downlink', 'the first downlink of a session is not taken at face value', b.path, 'CASE-ANALYSIS(first downlink)',
+                instance='next_fcnt_down, no downlink yet: Some(wire counter)')
